@@ -87,6 +87,60 @@ Theorem c07_detached_alg_supported :
 Proof. exact detached_alg_supported. Qed.
 Print Assumptions c07_detached_alg_supported.
 
+(* a SigAlg that names no signature algorithm the receiver can verify (another family, an unknown or misspelt
+   identifier, the empty text) never passes for a required signature *)
+Theorem c07_unverifiable_alg_rejected :
+  forall (key cert esig dsig doc : Type) (cert_of : key -> cert)
+         (dsign : key -> doc * option string * string -> dsig)
+         (everify : cert -> body -> esig -> bool) (dverify : cert -> doc * option string * string -> dsig -> bool),
+    (forall c o s, dverify c o s = true <-> exists k, c = cert_of k /\ s = dsign k o) ->
+    forall x : input cert esig dsig doc,
+      requires_signed (cfg x) -> binding x = Some BINDING_HTTP_REDIRECT ->
+      (forall sa, sigalg x = Some sa -> ~ sig_alg sa) -> parse_request everify dverify x <> Accept.
+Proof. exact unverifiable_alg_rejected. Qed.
+Print Assumptions c07_unverifiable_alg_rejected.
+
+(* an IssueInstant written with a numeric zone offset (legal or not), or with anything else that is no 'Z' after the
+   seconds, is never processed *)
+Theorem c07_zone_offset_rejected :
+  forall (cert esig dsig doc : Type)
+         (everify : cert -> body -> esig -> bool) (dverify : cert -> doc * option string * string -> dsig -> bool)
+         (x : input cert esig dsig doc),
+    zone_read (izone (msg x)) = false -> parse_request everify dverify x <> Accept.
+Proof. exact zone_offset_rejected. Qed.
+Print Assumptions c07_zone_offset_rejected.
+
+(* what is processed denotes an instant - the written date and time, taken as UTC - at most a day plus skew off *)
+Theorem c07_accepted_instant :
+  forall (cert esig dsig doc : Type)
+         (everify : cert -> body -> esig -> bool) (dverify : cert -> doc * option string * string -> dsig -> bool)
+         (x : input cert esig dsig doc),
+    parse_request everify dverify x = Accept ->
+    denoted (msg x) = Some (issued (msg x))
+    /\ (now x - 86400 - skew (cfg x) <= issued (msg x) < now x + 86400 + skew (cfg x))%Z.
+Proof. exact accepted_instant. Qed.
+Print Assumptions c07_accepted_instant.
+
+(* witnesses on the instance of the correspondence: the two clauses above are not vacuous, and a verdict Accept on such
+   inputs FAILS the stated property (an implementation that processes them yields a failing input) *)
+Theorem c07_unverifiable_alg_witness :
+  imodel (ex_redirect_alg "" None) = RejSig
+  /\ imodel (ex_redirect_alg ecdsa (Some (1, (1, Some "rs"%string, ecdsa)))) = RejSig
+  /\ ~ spec icert_of iesign idsign (ex_redirect_alg "" None) Accept
+  /\ ~ spec icert_of iesign idsign (ex_redirect_alg ecdsa (Some (1, (1, Some "rs"%string, ecdsa)))) Accept.
+Proof. exact unverifiable_alg_witness. Qed.
+Print Assumptions c07_unverifiable_alg_witness.
+
+Theorem c07_instant_spelling_witness :
+  imodel (ex_instant (1700000000 - 129600) ZUtc) = RejStale
+  /\ imodel (ex_instant (1700000000 - 79200) (ZOff 840)) = RejInvalid
+  /\ denoted (msg (ex_instant (1700000000 - 79200) (ZOff 840))) = Some (1700000000 - 129600)%Z
+  /\ ~ spec icert_of iesign idsign (ex_instant (1700000000 - 79200) (ZOff 840)) Accept
+  /\ imodel (ex_instant (1700000000 - 79200) ZUtc) = Accept
+  /\ spec icert_of iesign idsign (ex_instant (1700000000 - 79200) ZUtc) Accept.
+Proof. exact instant_spelling_witness. Qed.
+Print Assumptions c07_instant_spelling_witness.
+
 (* what is processed is an element of the class the entry point expects *)
 Theorem c07_accepted_kind :
   forall (cert esig dsig doc : Type)
@@ -116,7 +170,7 @@ Theorem c07_complete :
          exists k sa, sigalg x = Some sa /\ In sa SIGNER_ALGS
                       /\ signature x = Some (dsign k (origdoc x, relay_state x, sa))
                       /\ In (cert_of k) (md_certs (cfg x) (issuer_id (msg x)))) ->
-      inst_ok (msg x) = true -> version (msg x) = "2.0"%string ->
+      inst_ok (msg x) = true -> zone_read (izone (msg x)) = true -> version (msg x) = "2.0"%string ->
       (forall d, destination (msg x) = Some d ->
          In d (receiver_addrs (cfg x) (service_of (expected x)) (binding x))) ->
       (now x - 86400 - slack (cfg x) <= issued (msg x) < now x + 86400 + slack (cfg x))%Z ->
